@@ -153,7 +153,7 @@ def check(case):
 
 
 def parts(tier):
-    return [Part("requests", strategy=_case(), check=check, n={"quick": 3200, "thorough": 60000})]
+    return [Part("requests", strategy=_case(), check=check, n={"quick": 3200, "thorough": 250000})]
 
 
 MANIFEST = {
